@@ -47,10 +47,13 @@ def jFMod (m : FastMod.FMod) : Json := jObj [("act", jN m.act), ("ins", jArr jN 
 def jFastNetM (fm : FastMod.FastModNet Float) : Json :=
   (jFastNet fm.base).setObjVal! "modules" (jN fm.modules.length)
 
-/-! ### executable hypotheses of the C13Mod theorems and the module decision logic -/
+/-! ### input classes (wirings on which the pre-repair `Flush` loops were already correct) and the module decision logic -/
 
-/-- fast solver: nothing writes the processing cell of a bias neuron (`FastMod.biasCellsUnwritten`) -/
-def fastHyp (fm : FastMod.FastModNet Float) : Bool := FastMod.biasCellsUnwritten fm
+/-- fast solver, input class only: nothing writes the processing cell of a bias neuron (the wiring on which the
+    `Flush` loop before repair 1a387d5 was already correct) -/
+def fastHyp (fm : FastMod.FastModNet Float) : Bool :=
+  (fm.base.conns.all fun c => decide (fm.base.nBias ≤ c.dst)) &&
+  (fm.modules.all fun m => m.outs.all fun o => decide (fm.base.nBias ≤ o))
 
 /-- standard solver, decision logic of the LAST module on the dumped state after a successful activation call:
     if it has exactly one output neuron that is none of its inputs, that neuron holds
@@ -100,7 +103,7 @@ def parseModCase (j : Json) : E ModCase := do
            seq := ← (← fldArr inp "seq").mapM parseOp, out := ← fld j "out" }
 
 /-- model side of one case: (init dump, run of `script`, run of `seq` on a fresh state, build/count differences,
-    hypothesis of the theorem holds, decision-logic check on Go's dumped states) -/
+    wiring class: nothing reads a control node / writes a bias cell, decision-logic check on Go's dumped states) -/
 def modModel (c : ModCase) (script : List ScriptOp) (goRun : List Json) :
     E (Option Json × List Json × List Json × Option String × Bool × Bool) := do
   let out := c.out
@@ -188,14 +191,9 @@ def hModFlushRun : Handler := fun j => do
   let why := if !logic then "moduleLogic" else if !flushOk then "flushFailed" else match specDiff with
     | some d => (d.takeWhile (· != ':')).toString
     | none => ""
-  -- outside the hypothesis of the theorem the failure is the reported defect of Flush (known finding)
-  let sig := if spec then "" else
-    if !logic then s!"modFlushRun:{c.solver}:moduleLogic"
-    else if !hyp then (if c.solver == "std" then "modFlushRun:std:controlNodeStateSurvivesFlush"
-                       else "modFlushRun:fast:biasProcessingCellSurvivesFlush")
-    else s!"modFlushRun:{c.solver}:{why}"
+  let sig := if spec then "" else s!"modFlushRun:{c.solver}:{why}"
   return { corr := diff.isNone, spec := spec, nontrivial := nontriv,
-           cls := c.solver ++ ":" ++ c.build ++ (if hyp then "" else ":outsideHyp") ++ (if modular then "" else ":plain"),
+           cls := c.solver ++ ":" ++ c.build ++ (if hyp then "" else ":exoticWiring") ++ (if modular then "" else ":plain"),
            detail := (diff.getD "") ++ (if spec then "" else " SPEC: " ++ (specDiff.getD (if logic then "flush reported failure" else "module decision logic"))),
            sig := sig }
 
